@@ -845,8 +845,15 @@ pub fn history(mode: &str, idx: u64, rng: &mut Rng, thorough: bool, timeout_ms: 
                 }
                 t
             };
-            if rng.chance(850) {
+            // setup variants: constraint rectangle (the hull), or an arbitrary history of inserts,
+            // removals and constraints (hull edges created in every possible way), or both
+            let variant = rng.below(10);
+            if variant >= 4 {
                 ctx.op(rect(0.0, 0.0, w, h, 10));
+            }
+            if variant < 6 {
+                let nb = 3 + rng.below(9);
+                build_some(rng, &mut ctx, &fam, &mut counter, nb, true);
             }
             if rng.chance(500) {
                 ctx.op(rect(1.0 * sc, 1.0 * sc, 2.0 * sc, 3.0 * sc, 20));
